@@ -827,3 +827,57 @@ def r_val_def(E):
                 res.samples.append({"parameter": f"{c}.{p}", "default_key": True})
     res.floor = 55
     return res
+
+
+# ---------------------------------------------------------------------------------------------- R-JSON-DISPATCH (C13)
+@rule("R-JSON-DISPATCH")
+def r_json_dispatch(E):
+    pm = E.pm
+    res = RuleResult("R-JSON-DISPATCH", "model code never dispatches on a value class that the JSON loader does not "
+                                        "rebuild: the loader recreates every value as the class it names (the Source* "
+                                        "input classes come back as their base classes), so a test on a class it never "
+                                        "constructs answers differently on a model and on its reloaded copy")
+    from ..astutil import nodes_through_helpers
+    rel, fn = pm.find_function("api_utils/json_to_system.py", "json_to_explainable_object")
+    explainable = {cn for cn in pm.classes if "ExplainableObject" in pm.mro(cn)}
+    built = {c.func.id for c in nodes_through_helpers(fn, find_function=pm.package_function_finder())
+             if isinstance(c, ast.Call) and isinstance(c.func, ast.Name) and c.func.id in explainable}
+    if len(built) < 3:
+        raise AnalysisError(f"R-JSON-DISPATCH: the loader constructs only {sorted(built)}")
+    # classes an original model can hold but a reloaded one cannot: proper subclasses of a rebuilt class, never rebuilt
+    lost = {cn for cn in explainable - built if any(b in built for b in pm.mro(cn)[1:])}
+
+    def tested_classes(n):
+        if isinstance(n, ast.Call) and isinstance(n.func, ast.Name) and n.func.id in ("isinstance", "issubclass") \
+                and len(n.args) == 2:
+            k = n.args[1]
+            return [x.id for x in (k.elts if isinstance(k, ast.Tuple) else [k]) if isinstance(x, ast.Name)]
+        if isinstance(n, ast.Compare) and len(n.ops) == 1 and isinstance(n.ops[0], (ast.Eq, ast.NotEq, ast.Is, ast.IsNot)):
+            sides = [n.left, n.comparators[0]]
+            if any((isinstance(s, ast.Call) and isinstance(s.func, ast.Name) and s.func.id == "type")
+                   or (isinstance(s, ast.Attribute) and s.attr == "__class__") for s in sides):
+                return [s.id for s in sides if isinstance(s, ast.Name)]
+        return []
+    for cn in sorted(pm.classes):
+        if not pm.is_model(cn):
+            continue
+        for m in pm.own_methods(cn):
+            if m.name == "__init__":          # not run when a model is reloaded
+                continue
+            for n in ast.walk(m):
+                ks = tested_classes(n)
+                if not ks:
+                    continue
+                res.instances += 1
+                for k in ks:
+                    if k in lost:
+                        base = next(b for b in pm.mro(k)[1:] if b in built)
+                        res.findings.append(Finding(
+                            "R-JSON-DISPATCH", f"{cn}.{m.name} tests for {k}",
+                            f"{cn}.{m.name} decides on `{norm(n)[:70]}`: json_to_explainable_object rebuilds such a value as "
+                            f"{base} (it never constructs {k}), so the test holds on the original model and fails on the "
+                            f"reloaded one — the reloaded system computes other results from the same inputs",
+                            pm.path_of(cn), n.lineno, f"{cn}.{m.name}"))
+    res.samples = [{"rebuilt_by_the_loader": sorted(built), "never_rebuilt": sorted(lost)}]
+    res.floor = 5
+    return res
